@@ -8,7 +8,8 @@ HARNESSES = [
     Harness('core', 'h_logical_reg', unwind=17, bounds=GP, mem_gb=4, timeout=600),
     Harness('core', 'h_logical_imm', unwind=34, bounds=GP, mem_gb=4, timeout=600),
     Harness('core', 'h_mov_reg', unwind=17, bounds=GP, mem_gb=4, timeout=600),
-    Harness('core', 'h_mov_imm', unwind=34, bounds=GP, mem_gb=8, timeout=600),
+    Harness('core', 'h_mov_imm_w', unwind=34, bounds=GP + '; all 2^64 immediates', mem_gb=8, timeout=900),
+    Harness('core', 'h_mov_imm_x', unwind=34, bounds=GP + '; all 2^64 immediates', mem_gb=8, timeout=900),
     Harness('core', 'h_movwide', unwind=17, bounds=GP, mem_gb=4, timeout=600),
 ]
 for f in ('ldr', 'str', 'ldrb', 'ldrh', 'strb', 'strh', 'ldrsb', 'ldrsh', 'ldrsw', 'ldp', 'stp', 'ldpsw', 'ldnp', 'madd', 'bitfield', 'shift', 'csel', 'ccmp', 'branch_abs'):
@@ -17,7 +18,7 @@ VEC = 'vector ids 0..63 (32-63 = no register), per operand: arrangement (Q, B/H/
 for f in ('simd_add', 'simd_fmla', 'simd_ld1_1', 'simd_ld1_2', 'simd_ld1_3', 'simd_ld1_4', 'simd_lane', 'simd_fmov_imm', 'minmax', 'simd_tbl_1', 'simd_tbl_2', 'simd_tbl_3', 'simd_tbl_4'):
     HARNESSES.append(Harness('simd', 'h_' + f, unwind=17, bounds=VEC, mem_gb=4, timeout=600))
 KF = [('core', 'h_csel_kf_C02F', 'C02F'), ('core', 'h_branch_kf_C02G', 'C02G'), ('core', 'h_ldst_kf_C02B', 'C02B'), ('core', 'h_ldst_kf_C02C', 'C02C'), ('core', 'h_ldst_kf_C02D', 'C02D'),
-      ('core', 'h_bitfield_kf_C02E', 'C02E'), ('core', 'h_mov_imm_kf_C02H', 'C02H'), ('simd', 'h_simd_add_kf_C02A', 'C02A'), ('simd', 'h_minmax_kf_C02I', 'C02I'), ('simd', 'h_simd_tbl_kf_C02J', 'C02J'), ('simd', 'h_simd_elem_kf_C02K', 'C02K')]
+      ('core', 'h_bitfield_kf_C02E', 'C02E'), ('core', 'h_mov_imm_kf_C02H', 'C02H'), ('simd', 'h_simd_add_kf_C02A', 'C02A'), ('simd', 'h_minmax_kf_C02I', 'C02I'), ('simd', 'h_simd_tbl_kf_C02J', 'C02J'), ('simd', 'h_simd_elem_kf_C02K', 'C02K'), ('core', 'h_cmp_kf_C02L', 'C02L'), ('core', 'h_neg_kf_C02M', 'C02M'), ('simd', 'h_simd_kf_C02N', 'C02N'), ('simd', 'h_simd_kf_C02O', 'C02O')]
 for u, f, k in KF:
     HARNESSES.append(Harness(u, f, unwind=17, bounds='region of known finding ' + k, mem_gb=4, timeout=600, known=k))
 # ---- generated family (gen_forms.py, output committed): one unit per h_forms_NN.cpp, rotated into quick by unit
